@@ -95,6 +95,10 @@ def run_property(pid, tier, repo, seed, quiet=False):
                 notes.append(n)
         samples.append((r.rule, r.samples))
     incomplete = list(dict.fromkeys(incomplete))
+    # development switch: USA_DISABLE=RULE1,RULE2 drops the findings of those rules (never set by the registered commands)
+    _dis = [x for x in os.environ.get('USA_DISABLE', '').split(',') if x]
+    if _dis:
+        all_findings = [f_ for f_ in all_findings if f_.rule not in _dis]
     findings = report.dedup_findings(all_findings)
     known = report.load_known()
     open_known = [k for k in known.get('open', []) if k.get('property') == pid]
